@@ -16,4 +16,6 @@ CASES = [
     dict(expect="silent", desc="concat: action renamed", edits=[dict(file=CC, old="action", new="step", count=None)]),
     dict(expect="fire", desc="seed C10-r2/3: retry(0) treated as unbounded (truthiness of the count)", names="Q3-delegations", edits=[dict(file="reactivex/operators/_retry.py",
          old="        if retry_count is None:\n            gen = infinite()\n        else:\n            gen = range(retry_count)", new="        gen = range(retry_count) if retry_count else infinite()")]),
+    dict(expect="silent", desc="retry: None test written positively", edits=[dict(file="reactivex/operators/_retry.py",
+         old="        if retry_count is None:\n            gen = infinite()\n        else:\n            gen = range(retry_count)", new="        if retry_count is not None:\n            gen = range(retry_count)\n        else:\n            gen = infinite()")]),
 ]
